@@ -34,6 +34,13 @@
     P3  `headers.mailbox.length as usize - COE_HEADER_AND_LIST_TYPE_SIZE`           (send_sdo_info_service; checked builds)
     P4  `response[..length]`                                                        (send_sdo_info_service; all builds)
   All other slice accesses in this code are `get(..).ok_or(..)` and are modelled as the error they return.
+  Operations that could panic in principle but cannot be reached with a panicking argument, and are therefore not
+  branches of the model: `fmt::unwrap!(fetch_update(..))` in mailbox_counter (the closure always returns `Some`);
+  `debug_assert!(T::PACKED_LEN <= 4)` in sdo_read_expedited (`SdoExpeditedPayload` is implemented for u8/u16/u32 only);
+  `values.push(value)` in sdo_read_array (guarded by `len > MAX_ENTRIES`); `chunk_len -= segment_data_size` (only when
+  chunk_len == 7, segment_data_size is a 3-bit field); `total_len + chunk_len` (usize, see the assumption in props.py);
+  `n + 1` in the counter update (only for n < 7). The correspondence (catch_unwind on every generated case in both
+  build profiles) is what validates this list.
 -/
 import EcModel.Basic
 import EcModel.Generated.Coe
